@@ -1,7 +1,8 @@
 #!/usr/bin/env python3
 """Seeded property-breaking changes (/verif/seeded/<id>/): confirm and run.
 
-  tools/seeded.py baseline <id>        apply patch.diff in a scratch worktree, build + run the repository's 20 tests there
+  tools/seeded.py baseline <id,id,..>  apply each patch.diff in a persistent scratch worktree, rebuild incrementally, run the repository's test suite
+  tools/seeded.py baseline-clean       remove that worktree and its build directory
   tools/seeded.py demo <id>            build/run the demonstration with and without the patch (meta.json: demo_cmd)
   tools/seeded.py check <id> [--tier quick] [--inplace]
                                        run the property's check against the patched tree (scratch worktree via VERIF_REPO by
@@ -35,16 +36,32 @@ def drop(wt):
     sh(['git', '-C', '/repo', 'worktree', 'remove', '--force', wt]); shutil.rmtree(wt, ignore_errors=True)
     sh(['git', '-C', '/repo', 'worktree', 'prune'])
 
-def cmd_baseline(i, jobs=8):
-    wt = worktree('base-' + i, os.path.join(SEEDED, i, 'patch.diff')); bd = wt + '_build'
-    try:
-        r = sh('cmake -G Ninja -S %s -B %s -DAMGCL_BUILD_TESTS=ON -DCMAKE_BUILD_TYPE=RelWithDebInfo && cmake --build %s -j%d' % (wt, bd, bd, jobs))
-        if r.returncode: print(r.stdout[-3000:]); print('BASELINE-BUILD-FAILED', i); return 1
-        r = sh('ctest --test-dir %s -j%d --timeout 1800' % (bd, jobs)); print(r.stdout[-1500:])
-        ok = '100% tests passed' in r.stdout
-        print('BASELINE', i, 'PASS' if ok else 'FAIL'); return 0 if ok else 1
-    finally:
-        shutil.rmtree(bd, ignore_errors=True); drop(wt)
+BASE_WT = os.path.join(SCR, 'baseline-wt'); BASE_BD = os.path.join(SCR, 'baseline-build')
+TENV = 'OMP_NUM_THREADS=2 OMP_WAIT_POLICY=passive '
+
+def cmd_baseline(ids, jobs=8):
+    """Persistent scratch worktree + build dir: apply each patch, rebuild incrementally, run ctest, revert."""
+    head = sh(['git', '-C', '/repo', 'rev-parse', 'HEAD']).stdout.strip()
+    if not os.path.exists(BASE_WT): worktree('baseline-wt')
+    sh(['git', '-C', BASE_WT, 'checkout', '-q', '--detach', head]); sh(['git', '-C', BASE_WT, 'checkout', '--', '.'])
+    rc = 0
+    for i in ids:
+        patch = os.path.join(SEEDED, i, 'patch.diff')
+        r = sh(['git', '-C', BASE_WT, 'apply', patch])
+        if r.returncode: print('BASELINE', i, 'PATCH-DOES-NOT-APPLY', r.stdout[-300:]); rc = 1; continue
+        try:
+            r = sh('cmake -G Ninja -S %s -B %s -DAMGCL_BUILD_TESTS=ON -DCMAKE_BUILD_TYPE=RelWithDebInfo > /dev/null && cmake --build %s -j%d' % (BASE_WT, BASE_BD, BASE_BD, jobs))
+            if r.returncode: print(r.stdout[-3000:]); print('BASELINE', i, 'BUILD-FAILED'); rc = 1; continue
+            r = sh(TENV + 'ctest --test-dir %s -j4 --timeout 1800' % BASE_BD)
+            ok = '100% tests passed' in r.stdout
+            print('BASELINE', i, 'PASS (%s)' % r.stdout.strip().splitlines()[-3].strip() if ok else 'FAIL\n' + r.stdout[-1500:])
+            if not ok: rc = 1
+        finally:
+            sh(['git', '-C', BASE_WT, 'checkout', '--', '.'])
+    return rc
+
+def cmd_baseline_clean():
+    shutil.rmtree(BASE_BD, ignore_errors=True); drop(BASE_WT)
 
 def cmd_demo(i):
     m = meta(i); d = os.path.join(SEEDED, i); res = {}
@@ -65,7 +82,7 @@ def cmd_check(i, tier='quick', inplace=False, seed='1'):
         r = sh(['git', '-C', '/repo', 'apply', patch])
         if r.returncode: print('patch does not apply: ' + r.stdout); return 2
     else:
-        wt = worktree('chk-' + i, patch); env['VERIF_REPO'] = wt
+        wt = worktree('chk-' + i, patch); env['VERIF_REPO'] = wt; env['VERIF_BUILD'] = os.path.join(SCR, 'build-' + i)
     caught = []
     try:
         for p in props:
@@ -79,15 +96,14 @@ def cmd_check(i, tier='quick', inplace=False, seed='1'):
     finally:
         if inplace: sh(['git', '-C', '/repo', 'checkout', '--', '.'])
         else:
-            import hashlib
-            tag = 'alt-' + hashlib.sha1(wt.encode()).hexdigest()[:10]
-            shutil.rmtree(os.path.join(VERIF, 'build', tag), ignore_errors=True); drop(wt)
+            shutil.rmtree(os.path.join(SCR, 'build-' + i), ignore_errors=True); drop(wt)
     print('SEEDED', i, 'caught by ' + ','.join(caught) if caught else 'MISSED'); return 0 if caught else 1
 
 def main():
     ap = argparse.ArgumentParser(); ap.add_argument('cmd'); ap.add_argument('id', nargs='?'); ap.add_argument('--tier', default='quick'); ap.add_argument('--inplace', action='store_true'); ap.add_argument('--seed', default='1')
     a = ap.parse_args()
-    if a.cmd == 'baseline': sys.exit(cmd_baseline(a.id))
+    if a.cmd == 'baseline': sys.exit(cmd_baseline(a.id.split(',')))
+    if a.cmd == 'baseline-clean': cmd_baseline_clean(); sys.exit(0)
     if a.cmd == 'demo': sys.exit(cmd_demo(a.id))
     if a.cmd == 'check': sys.exit(cmd_check(a.id, a.tier, a.inplace, a.seed))
     if a.cmd == 'all':
